@@ -5,7 +5,7 @@ package zlint
 // Machine-checked contracts for the verification machinery in /verif (govc).
 // This file contains comments only and is compiled only with -tags verif.
 
-//@ func (*ResultSet).updateErrorStatePresent [C01]
+//@ func (*ResultSet).updateErrorStatePresent [C01 C10]
 //@   requires z != nil && result != nil
 //@   nopanic
 //@   assigns z.NoticesPresent, z.WarningsPresent, z.ErrorsPresent, z.FatalsPresent
@@ -24,7 +24,7 @@ package zlint
 //@ spec certFlag(z *ResultSet, L []*lint.CertificateLint, k int, s lint.LintStatus) bool =
 //@      exists(j, 0, k, z.Results[L[j].Name].Status == s)
 
-//@ func (*ResultSet).executeCertificate [C01]
+//@ func (*ResultSet).executeCertificate [C01 C10]
 //@   requires z != nil && o != nil && registry != nil
 //@   requires !z.NoticesPresent && !z.WarningsPresent && !z.ErrorsPresent && !z.FatalsPresent
 //@   nopanic
@@ -51,7 +51,7 @@ package zlint
 //@ spec crlFlag(z *ResultSet, L []*lint.RevocationListLint, k int, s lint.LintStatus) bool =
 //@      exists(j, 0, k, z.Results[L[j].Name].Status == s)
 
-//@ func (*ResultSet).executeRevocationList [C01]
+//@ func (*ResultSet).executeRevocationList [C01 C10]
 //@   requires z != nil && o != nil && registry != nil
 //@   requires !z.NoticesPresent && !z.WarningsPresent && !z.ErrorsPresent && !z.FatalsPresent
 //@   maypanic
@@ -78,7 +78,7 @@ package zlint
 //@ spec ocspFlag(z *ResultSet, L []*lint.OcspResponseLint, k int, s lint.LintStatus) bool =
 //@      exists(j, 0, k, z.Results[L[j].Name].Status == s)
 
-//@ func (*ResultSet).executeOcspResponse [C01]
+//@ func (*ResultSet).executeOcspResponse [C01 C10]
 //@   requires z != nil && o != nil && registry != nil
 //@   requires !z.NoticesPresent && !z.WarningsPresent && !z.ErrorsPresent && !z.FatalsPresent
 //@   maypanic
@@ -98,7 +98,7 @@ package zlint
 // ---------------------------------------------------------------------------
 // the public entry points (C01): complete, well-formed result set
 
-//@ func LintCertificateEx [C01]
+//@ func LintCertificateEx [C01 C10]
 //@   nopanic
 //@   assigns \fresh
 //@   ensures (c == nil) == (result == nil)
@@ -111,7 +111,7 @@ package zlint
 //@   ensures implies(c != nil && registry != nil, g.recvLints == registry.CertificateLints())
 //@   ensures implies(c != nil && registry == nil, g.recvLints == lint.GlobalRegistry().CertificateLints())
 
-//@ func LintRevocationListEx [C01]
+//@ func LintRevocationListEx [C01 C10]
 //@   maypanic
 //@   assigns \fresh
 //@   ensures (r == nil) == (result == nil)
@@ -124,7 +124,7 @@ package zlint
 //@   ensures implies(r != nil && registry != nil, g.recvCrlLints == registry.RevocationListLints())
 //@   ensures implies(r != nil && registry == nil, g.recvCrlLints == lint.GlobalRegistry().RevocationListLints())
 
-//@ func LintOcspResponseEx [C01]
+//@ func LintOcspResponseEx [C01 C10]
 //@   maypanic
 //@   assigns \fresh
 //@   ensures (o == nil) == (result == nil)
